@@ -82,11 +82,17 @@ class AwesomeyamlLoader(yaml.Loader):
 
         aynode = self._convert(value, node)
 
-        if is_container and value is not aynode:
+        # a plain dict/list which a merge-control tag (!force, !merge, ...) has constructed - pyyaml hands the same object back for every alias
+        is_tagged_container = isinstance(node, (yaml.SequenceNode, yaml.MappingNode)) and value is aynode and aynode._is_plain_composed()
+        if (is_container and value is not aynode) or is_tagged_container:
             converted = self.__dict__.setdefault('_converted_nodes', {})
             if id(node) in converted:
-                # constructed again (an alias): the new container holds the very nodes which sit in the one created for the anchor
-                self.__dict__.setdefault('_alias_containers', []).append(aynode)
+                if is_tagged_container:
+                    # constructed again (an alias): every place gets a container of its own
+                    aynode = copy.deepcopy(aynode)
+                else:
+                    # constructed again (an alias): the new container holds the very nodes which sit in the one created for the anchor
+                    self.__dict__.setdefault('_alias_containers', []).append(aynode)
             converted[id(node)] = node
 
         if is_container and value is not aynode and id(value) in unfilled:
